@@ -18,7 +18,7 @@
 //                         int& to an object outside, void, const fn& to the function object itself, std::string by value}
 //           call op      {const, const&-qualified, a const and a non-const overload}
 //         quick: tf, ff of the same life (3) x [const x all 8 result kinds + {const&, two overloads} x {const int& to own state, void}]
-//                x forms {0,1} (form 2 for {const} x {const int& to own state}); all 6 mixed-life pairs x {const} x {const int& to own state} x forms {0,1,2}
+//                x forms {0,1} (form 2 for {const} x {const int& to own state}); all 6 mixed-life pairs x {const} x {const int& to own state} x forms {0,1}
 //         deep:  same life (3) x all 3 call ops x all 8 result kinds x forms {0,1,2}; all 6 mixed-life pairs x {const} x all 8 result kinds x forms {0,1,2}
 //       generic lambdas, by-value capture of a tracked payload (copyable / move-only closure)
 //           {const int& to own capture, int& to own capture, int by value, void, int& through an additional reference capture,
@@ -228,8 +228,27 @@ namespace
     }
     template <bool C> struct derived_tag : std::integral_constant<bool, C> {};
 
+    // the direct expression: c ? tf(identity()) : ff(identity()); the object is selected by tag dispatch, without static_if
+    template <bool C> struct pick;
+    template <> struct pick<true> { template <class A, class B> static A&& of(A&& a, B&&) { return static_cast<A&&>(a); } };
+    template <> struct pick<false> { template <class A, class B> static B&& of(A&&, B&& b) { return static_cast<B&&>(b); } };
+    template <bool C, class A, class B>
+    decltype(auto) direct(A&& a, B&& b)
+    {
+        return pick<C>::of(std::forward<A>(a), std::forward<B>(b))(xtl::identity());
+    }
+
     // the three call forms, written out as a caller writes them (A, B: the two arguments with their value categories)
+    // (C18O_DIRECT_ONLY: check.py's control build when a family does not compile - the same translation unit with every static_if
+    //  call replaced by the direct expression must compile, otherwise the harness itself is at fault)
     template <bool C, int Form> struct form;
+#ifdef C18O_DIRECT_ONLY
+    template <bool C, int Form> struct form
+    {
+        template <class A, class B>
+        static decltype(auto) call(A&& a, B&& b) { return direct<C>(std::forward<A>(a), std::forward<B>(b)); }
+    };
+#else
     template <bool C> struct form<C, 0>
     {
         template <class A, class B>
@@ -245,16 +264,7 @@ namespace
         template <class A, class B>
         static decltype(auto) call(A&& a, B&& b) { return xtl::mpl::static_if(derived_tag<C>(), std::forward<A>(a), std::forward<B>(b)); }
     };
-
-    // the direct expression: c ? tf(identity()) : ff(identity()); the object is selected by tag dispatch, without static_if
-    template <bool C> struct pick;
-    template <> struct pick<true> { template <class A, class B> static A&& of(A&& a, B&&) { return static_cast<A&&>(a); } };
-    template <> struct pick<false> { template <class A, class B> static B&& of(A&&, B&& b) { return static_cast<B&&>(b); } };
-    template <bool C, class A, class B>
-    decltype(auto) direct(A&& a, B&& b)
-    {
-        return pick<C>::of(std::forward<A>(a), std::forward<B>(b))(xtl::identity());
-    }
+#endif
 
     const char* cat_name(int c) { return c == 0 ? "lvalue" : c == 1 ? "const lvalue" : "xvalue (std::move)"; }
     template <int Cat> struct cat;
@@ -308,7 +318,8 @@ namespace
     const char* family_key(int f)
     {
         static const char* n[] = {"class:copyable", "class:move-only", "class:pinned", "class:mixed-life", "lambda:copyable", "lambda:move-only", "lambda:reference-capture", "?",
-                                  "class:nonconst-call", "class:rvalue-call", "lambda:mutable"};
+                                  "class:nonconst-call:copyable", "class:nonconst-call:move-only", "class:nonconst-call:pinned",
+                                  "class:rvalue-call:copyable", "class:rvalue-call:move-only", "class:rvalue-call:pinned", "lambda:mutable:copyable", "lambda:mutable:move-only"};
         return n[f];
     }
     std::string class_text(const info& i, int role)
@@ -583,19 +594,32 @@ int main(int argc, char** argv)
     family(5); lambda_family<5, move_only>();
 #endif
 #if (C18O_FAMILIES) & (1 << 6)
-    family(6); all_calls<mk_lambda<6, l_refcap_cref, pinned>>(); all_calls<mk_lambda<6, l_refcap_void, pinned>>();
+    family(6); all_calls<mk_lambda<6, l_refcap_cref, pinned>, 7>(); all_calls<mk_lambda<6, l_refcap_void, pinned>>();
 #endif
     // ---- optional families: only compiled in when check.py's capability probe found them well-formed on this tree
 #if (C18O_FAMILIES) & (1 << 8)
-    family(8); all_rets<8, q_nonconst, copyable, copyable>(); all_rets<8, q_nonconst, move_only, move_only>(); all_rets<8, q_nonconst, pinned, pinned>();
+    family(8); all_rets<8, q_nonconst, copyable, copyable>();
 #endif
 #if (C18O_FAMILIES) & (1 << 9)
-    family(9); all_rets<9, q_rref, copyable, copyable>(); all_rets<9, q_rref, move_only, move_only>(); all_rets<9, q_rref, pinned, pinned>();
+    family(9); all_rets<9, q_nonconst, move_only, move_only>();
 #endif
 #if (C18O_FAMILIES) & (1 << 10)
-    family(10);
-    all_calls<mk_lambda<10, l_mut_ref, copyable>>(); all_calls<mk_lambda<10, l_mut_val, copyable>>();
-    all_calls<mk_lambda<10, l_mut_ref, move_only>>(); all_calls<mk_lambda<10, l_mut_val, move_only>>();
+    family(10); all_rets<10, q_nonconst, pinned, pinned>();
+#endif
+#if (C18O_FAMILIES) & (1 << 11)
+    family(11); all_rets<11, q_rref, copyable, copyable>();
+#endif
+#if (C18O_FAMILIES) & (1 << 12)
+    family(12); all_rets<12, q_rref, move_only, move_only>();
+#endif
+#if (C18O_FAMILIES) & (1 << 13)
+    family(13); all_rets<13, q_rref, pinned, pinned>();
+#endif
+#if (C18O_FAMILIES) & (1 << 14)
+    family(14); all_calls<mk_lambda<14, l_mut_ref, copyable>, 7>(); all_calls<mk_lambda<14, l_mut_val, copyable>>();
+#endif
+#if (C18O_FAMILIES) & (1 << 15)
+    family(15); all_calls<mk_lambda<15, l_mut_ref, move_only>, 7>(); all_calls<mk_lambda<15, l_mut_val, move_only>>();
 #endif
     if (g_only >= 0 && g_ran == 0)
     {
